@@ -8,41 +8,49 @@ C11 — Conversions between bitvector types preserve the bits and are canonical.
    by runs with adjacent runs merged, from a raw vector, from an iterator, by conversion)."
 
 Property theorems only (helper lemmas live in Proofs/RawVec.lean, IntVec.lean, Glue.lean, Glue2.lean,
-Glue4.lean, Iter.lean, Sparse.lean, Sparse2.lean, RL.lean, Builders.lean).
+Glue4.lean, Iter.lean, Sparse.lean, Sparse2.lean, RL.lean, RLQueries.lean, RLCanon.lean, Builders.lean).
 
 **How a conversion is modelled.**  In the library every conversion between the three bitvector types
 (`BitVector`, `SparseVector`, `RLVector`) is the composition of two steps, and the model has exactly these
 two steps, not a separate function per pair of types:
   (A) the SOURCE lists its content: `len()` and `one_iter()` — the pairs (rank, position) of its set bits in
-      increasing order (for a run-length source: `run_iter()`, the maximal runs);
+      increasing order (for a run-length source also: `run_iter()`, the maximal runs);
   (B) the TARGET's builder is fed that content: plain — `copy_bit_vec`: `RawVector::with_len(len, false)` and
       one `set_bit(p, true)` per listed position; sparse — `SparseBuilder::new(len, count_ones)`, one `set` per
       position, `build`; run-length — one `try_set` per position / per run, `set_len(len)`, `From<RLBuilder>`.
 §1 proves (A) for each source type: the listing is EXACTLY the set positions.  §2–§4 prove, for each target
 type, that the result of (B) is a function of the pair (length, set of positions) alone and is the value the
 target's own builder produces from the same bits (so equal, and — serialization being a function of the
-value — byte-identical when serialized).  §5 composes them into round trips.  A chain of conversions is a
-composition of these steps; each step preserves (length, positions) and lands on the canonical value for
-them, so every chain ending in a given type lands on the same value.
+value — byte-identical when serialized).  §5 composes them: the canonical representative of a bit sequence `B`
+in each type (`RawVec.ofBits B`, `Sparse.ofValues w |B| false (onesPos B)`, `rlOf m B`) lists `(onesPos B, |B|)`,
+and each target fed `(onesPos B, |B|)` yields ITS canonical representative of `B`; so every chain of conversions,
+of any length, ending in a given type lands on that type's canonical representative of the source's bits.
+Explicit round trips for every pair of types and a length-3 chain are spelled out.
 
 Quantifiers: every bit sequence `B` of `usize` length (as the content `v.bits` of a well-formed raw vector,
 or directly), every universe `n < 2^64` and every strictly increasing position list `P` below it with fewer
 than 2^63 elements, EVERY low width `w` in 1..=63 for the sparse target (the width rule is a parameter),
-both arithmetic modes.
+every accepted builder call history (`try_set` / `set_bit` / `set_len` in any decomposition) for the
+run-length target, both arithmetic modes.
 
-**Partial.**
-  * Run-length target (`rl_same_bits_same_content_partial`): any two accepted call histories describing the
-    same bit sequence — every decomposition into `try_set` / `set_bit` / `set_len` calls, in particular bit at a
-    time versus run at a time — give vectors with the same `len`, `count_ones` and the same maximal runs from
-    `run_iter()`, and the conversion `From<RLBuilder>` succeeds for both.  NOT proven: that the two vectors are
-    EQUAL as values (same `data` units, same block samples, same three sample indexes), hence identical
-    serialization.
-  * Chains through the run-length type, and the exhaustive statement over all 27 chains of length ≤ 3: covered
-    by correspondence (every chain is run on every corpus input and compared bit for bit and byte for byte
-    with the direct construction).  What follows from the theorems below is listed in the comment of §5.
+**Run-length target: full.**  `rl_same_bits_same_builder`: two accepted call histories describing the same bit
+sequence reach the SAME builder state (all six fields; also across arithmetic modes) — the pending run absorbs
+every adjacent call, a run is flushed only when a later call leaves a gap, so the encoded `data`, the block
+`samples`, `tail`, `ones` and the pending run are functions of the described bits.  Hence
+`rl_same_bits_same_value`: the converted vectors are EQUAL as values (same `data` units, block samples, and the
+three sample indexes) and serialize identically; `rl_value_closed_form`: the value is
+`From<RLBuilder>` of `RLCanon.canonFlushed B`, computed from `maximalRuns B`, `|B|` and the number of set bits.
+The block-count side condition of the run-length query theorems is discharged (`RLCanon.blocks_bound`), so the
+chains through the run-length type carry no extra hypothesis.
+
+**Not formalised as a single statement**: the exhaustive enumeration of all 27 chains of length ≤ 3 as one
+theorem; it follows by composing the listing theorem (`canonical_representatives_list_their_bits`) with the three
+feeding theorems (`bits_into_plain`, `plain_into_sparse_preserves_bits`, `bits_into_rl_is_canonical`) — see §5.
 -/
 import Sds.Proofs.Glue4
 import Sds.Proofs.Iter
+import Sds.Proofs.RLQueries
+import Sds.Proofs.RLCanon
 
 namespace Sds.C11
 open Sds Outcome IterProofs
@@ -83,6 +91,18 @@ theorem rl_run_iter_lists_maximal_runs (m : Mode) (calls : List RL.BCall) (hc : 
       e.pos = ((calls.foldl RL.specCall []).count true, endPos) ∧
       endPos ≤ (calls.foldl RL.specCall []).length :=
   RL.build_iterate_calls m calls hc b hb v hv
+
+/-- run-length vector: `one_iter()` + `next()` until `None` on a vector built by any accepted call history
+describing `B` yields the set positions of `B` in order, ranked `0, 1, …` (no side condition: the number of
+blocks is at most the number of maximal runs, `RLCanon.blocks_bound`) -/
+theorem rl_one_iter_lists_set_positions (m : Mode) (calls : List RL.BCall) (hc : ∀ c ∈ calls, RL.callArgsOk c)
+    (b : RLBuilder) (hb : RL.runBCalls m calls {} = ok b) (v : RL) (hv : RL.ofBuilder m b = ok v) :
+    v.blocks + 8 < U64 ∧
+    ∃ st items, v.oneIter = ok st ∧ RLQ.drainOne m v (v.ones + 1) st = ok items ∧
+      items.map (·.2) = onesPos (calls.foldl RL.specCall []) ∧
+      items.map (·.1) = List.range ((calls.foldl RL.specCall []).count true) := by
+  have hsz := (RLCanon.blocks_bound m calls hc b hb v hv).2
+  exact ⟨hsz, RLQ.build_oneIter m calls hc b hb v hv hsz (v.ones + 1) (Nat.le_refl _)⟩
 
 /-! ### §2. (B) target: plain bitvector -/
 
@@ -220,32 +240,96 @@ theorem bits_into_rl_preserves_bits (m : Mode) (B : List Bool) (hB : B.length < 
   rw [(RL.callsOf_spec _ _ hr).trans hbits] at h
   exact ⟨b, v, hb, hv, h⟩
 
-/-
-run-length target, canonicity — intended full statement:
+/-- run at a time: one `try_set(start, len)` per MAXIMAL run of `B`, then `set_len(|B|)` — the natural use of
+the run-length builder, and the copy of a run-length vector through `run_iter()` — is accepted call by call and
+describes `B` -/
+theorem rl_run_at_a_time_describes_bits (m : Mode) (B : List Bool) (hB : B.length < U64) :
+    ∃ b, RL.runBCalls m (RL.callsOf (maximalRuns B) B.length) {} = ok b ∧ b.Inv ∧
+      (RL.callsOf (maximalRuns B) B.length).foldl RL.specCall [] = B := by
+  obtain ⟨hr, hbits⟩ := RLCanon.runCalls_spec B hB
+  obtain ⟨b, hb, hi⟩ := RL.runBCalls_accepts m B.length hB _ {} RLBuilder.inv_empty hr
+  exact ⟨b, hb, hi, (RL.callsOf_spec _ _ hr).trans hbits⟩
 
-    for accepted call histories `calls₁`, `calls₂` with `calls₁.foldl specCall [] = calls₂.foldl specCall []`
-    (two decompositions of the same bit sequence) and the vectors `v₁`, `v₂` converted from them:
-        v₁ = v₂     (hence `(rlC m).ser v₁ = (rlC m).ser v₂`)
+/-- **the builder state is a function of the described bits**: two accepted call histories — any two
+decompositions into `try_set` / `set_bit` / `set_len` calls, run in any arithmetic modes — describing the same
+bit sequence reach the same builder: same `len`, `ones`, `tail`, pending `run`, block `samples`, encoded `data` -/
+theorem rl_same_bits_same_builder (m₁ m₂ : Mode) (calls₁ calls₂ : List RL.BCall)
+    (hc₁ : ∀ c ∈ calls₁, RL.callArgsOk c) (hc₂ : ∀ c ∈ calls₂, RL.callArgsOk c)
+    (hsame : calls₁.foldl RL.specCall [] = calls₂.foldl RL.specCall [])
+    (b₁ b₂ : RLBuilder) (hb₁ : RL.runBCalls m₁ calls₁ {} = ok b₁) (hb₂ : RL.runBCalls m₂ calls₂ {} = ok b₂) :
+    b₁ = b₂ :=
+  RLCanon.builder_canonical_modes m₁ m₂ calls₁ calls₂ hc₁ hc₂ hsame b₁ b₂ hb₁ hb₂
 
-Proven: both conversions succeed, and `len`, `count_ones` and the complete output of `run_iter()` agree (below).
-Missing: equality of the encoded `data` and of the block samples (it needs: the builder's flushed runs depend
-only on the described bits — the pending run absorbs every adjacent call — so `data` / `samples` are a function
-of `maximalRuns B`).
--/
-theorem rl_same_bits_same_content_partial (m : Mode) (calls₁ calls₂ : List RL.BCall)
+/-- **the run-length representation is canonical**: the vectors converted (`From<RLBuilder>`) from two accepted
+call histories describing the same bit sequence are EQUAL as values — same `len`, `ones`, `data`, `samples` and
+the three sample indexes — and serialize to identical elements -/
+theorem rl_same_bits_same_value (m : Mode) (calls₁ calls₂ : List RL.BCall)
+    (hc₁ : ∀ c ∈ calls₁, RL.callArgsOk c) (hc₂ : ∀ c ∈ calls₂, RL.callArgsOk c)
+    (hsame : calls₁.foldl RL.specCall [] = calls₂.foldl RL.specCall [])
+    (b₁ b₂ : RLBuilder) (hb₁ : RL.runBCalls m calls₁ {} = ok b₁) (hb₂ : RL.runBCalls m calls₂ {} = ok b₂)
+    (v₁ v₂ : RL) (hv₁ : RL.ofBuilder m b₁ = ok v₁) (hv₂ : RL.ofBuilder m b₂ = ok v₂) :
+    v₁ = v₂ ∧ (rlC m).ser v₁ = (rlC m).ser v₂ :=
+  ⟨RLCanon.vector_canonical m calls₁ calls₂ hc₁ hc₂ hsame b₁ b₂ hb₁ hb₂ v₁ v₂ hv₁ hv₂,
+   RLCanon.bytes_canonical m calls₁ calls₂ hc₁ hc₂ hsame b₁ b₂ hb₁ hb₂ v₁ v₂ hv₁ hv₂⟩
+
+/-- … in total form: both conversions SUCCEED, with one and the same vector, whose `len`, `count_ones` and
+`run_iter()` output are those of the described bit sequence -/
+theorem rl_same_bits_same_value_total (m : Mode) (calls₁ calls₂ : List RL.BCall)
     (hc₁ : ∀ c ∈ calls₁, RL.callArgsOk c) (hc₂ : ∀ c ∈ calls₂, RL.callArgsOk c)
     (hsame : calls₁.foldl RL.specCall [] = calls₂.foldl RL.specCall [])
     (b₁ b₂ : RLBuilder) (hb₁ : RL.runBCalls m calls₁ {} = ok b₁) (hb₂ : RL.runBCalls m calls₂ {} = ok b₂) :
-    ∃ v₁ v₂, RL.ofBuilder m b₁ = ok v₁ ∧ RL.ofBuilder m b₂ = ok v₂ ∧
-      v₁.len = v₂.len ∧ v₁.ones = v₂.ones ∧
-      ∃ it₁ it₂ e₁ e₂ runs, v₁.runIter = ok it₁ ∧ v₂.runIter = ok it₂ ∧
-        RunIter.collect m v₁ (runs.length + 1) it₁ = ok (RunIter.withPos 0 runs, e₁) ∧
-        RunIter.collect m v₂ (runs.length + 1) it₂ = ok (RunIter.withPos 0 runs, e₂) ∧
-        runs = maximalRuns (calls₁.foldl RL.specCall []) := by
-  obtain ⟨v₁, hv₁, l1, o1, it1, e1, _, r1, c1, _⟩ := RL.build_iterate_calls_total m calls₁ hc₁ b₁ hb₁
-  obtain ⟨v₂, hv₂, l2, o2, it2, e2, _, r2, c2, _⟩ := RL.build_iterate_calls_total m calls₂ hc₂ b₂ hb₂
-  rw [← hsame] at l2 o2 c2
-  exact ⟨v₁, v₂, hv₁, hv₂, l1.trans l2.symm, o1.trans o2.symm, it1, it2, e1, e2, _, r1, r2, c1, c2, rfl⟩
+    ∃ v, RL.ofBuilder m b₁ = ok v ∧ RL.ofBuilder m b₂ = ok v ∧
+      v.len = (calls₁.foldl RL.specCall []).length ∧ v.ones = (calls₁.foldl RL.specCall []).count true ∧
+      ∃ it e, v.runIter = ok it ∧
+        RunIter.collect m v ((maximalRuns (calls₁.foldl RL.specCall [])).length + 1) it =
+          ok (RunIter.withPos 0 (maximalRuns (calls₁.foldl RL.specCall [])), e) := by
+  obtain ⟨v, hv, l1, o1, it1, e1, _, r1, c1, _⟩ := RL.build_iterate_calls_total m calls₁ hc₁ b₁ hb₁
+  have e := RLCanon.builder_canonical m calls₁ calls₂ hc₁ hc₂ hsame b₁ b₂ hb₁ hb₂
+  exact ⟨v, hv, e ▸ hv, l1, o1, it1, e1, r1, c1⟩
+
+/-- the canonical run-length representative of a bit sequence: `From<RLBuilder>` of the builder in which every
+maximal run of `B` has been flushed (`RLCanon.canonFlushed B`: a structure computed from `maximalRuns B`, `|B|`
+and the number of set bits by the pure flush step `RLCanon.Core.push`) -/
+abbrev rlOf (m : Mode) (B : List Bool) : Outcome RL := RL.ofBuilder m (RLCanon.canonFlushed B)
+
+/-- **closed form**: after any accepted history describing `B`, the final `flush` leaves exactly
+`canonFlushed B`, and the converted vector is `rlOf m B` -/
+theorem rl_value_closed_form (m : Mode) (calls : List RL.BCall) (hc : ∀ c ∈ calls, RL.callArgsOk c)
+    (B : List Bool) (hB : calls.foldl RL.specCall [] = B)
+    (b : RLBuilder) (hb : RL.runBCalls m calls {} = ok b) :
+    b.flush m = ok (RLCanon.canonFlushed B) ∧ RL.ofBuilder m b = rlOf m B := by
+  subst hB
+  exact ⟨RLCanon.flush_closed_form m calls hc b hb, RLCanon.ofBuilder_closed_form m calls hc b hb⟩
+
+/-- **conversion into a run-length vector** from any source listing `(onesPos B, |B|)` (§1): every call is
+accepted, the conversion succeeds, and the result IS `rlOf m B` — the value the run-length builder produces
+from the same bits by ANY accepted decomposition, in particular run at a time with adjacent runs merged -/
+theorem bits_into_rl_is_canonical (m : Mode) (B : List Bool) (hB : B.length < U64) :
+    ∃ b x, RL.runBCalls m (RL.callsOf ((onesPos B).map fun i => (i, 1)) B.length) {} = ok b ∧
+      RL.ofBuilder m b = ok x ∧ rlOf m B = ok x ∧ x.len = B.length ∧ x.ones = B.count true ∧
+      RL.runBCalls m (RL.callsOf (maximalRuns B) B.length) {} = ok b ∧
+      ∀ calls, (∀ c ∈ calls, RL.callArgsOk c) → calls.foldl RL.specCall [] = B →
+        ∀ b', RL.runBCalls m calls {} = ok b' → b' = b ∧ RL.ofBuilder m b' = ok x := by
+  obtain ⟨hr, hbits⟩ := RL.bitCalls_spec B hB
+  obtain ⟨b, hb, _, hd⟩ := rl_bit_at_a_time_describes_bits m B hB
+  have hc := RL.callsOf_argsOk _ B.length 0 hr hB
+  obtain ⟨x, hx, h⟩ := RL.build_iterate_calls_total m _ hc b hb
+  rw [hd] at h
+  have hcf := (rl_value_closed_form m _ hc B hd b hb).2
+  have hall : ∀ calls, (∀ c ∈ calls, RL.callArgsOk c) → calls.foldl RL.specCall [] = B →
+      ∀ b', RL.runBCalls m calls {} = ok b' → b' = b ∧ RL.ofBuilder m b' = ok x := by
+    intro calls hc' hB' b' hb'
+    have e := RLCanon.builder_canonical m calls _ hc' hc (hB'.trans hd.symm) b' b hb' hb
+    exact ⟨e, e ▸ hx⟩
+  obtain ⟨b2, hb2, _, hd2⟩ := rl_run_at_a_time_describes_bits m B hB
+  have e2 := (hall _ (RL.callsOf_argsOk _ B.length 0 (RLCanon.runCalls_spec B hB).1 hB) hd2 b2 hb2).1
+  exact ⟨b, x, hb, hx, hcf ▸ hx, h.1, h.2.1, e2 ▸ hb2, hall⟩
+
+/-- the canonical representative exists for every bit sequence of `usize` length -/
+theorem rlOf_total (m : Mode) (B : List Bool) (hB : B.length < U64) :
+    ∃ x, rlOf m B = ok x ∧ x.len = B.length ∧ x.ones = B.count true := by
+  obtain ⟨_, x, _, _, h, l, o, _⟩ := bits_into_rl_is_canonical m B hB
+  exact ⟨x, h, l, o⟩
 
 /-- histories in which some calls are REFUSED (and ignored by the caller) are histories of their accepted
 calls, so the statement above covers them too; with the repaired `set_len` every history runs to completion -/
@@ -258,15 +342,49 @@ theorem rl_any_history_is_covered (m : Mode) (cs : List RL.BCall)
 
 /-! ### §5. chains
 
-What follows from §1–§4 for chains of conversions (each arrow = list the positions (§1), feed the target (§2–4)):
-  * every chain ENDING in a plain bitvector yields `RawVec.ofBits B` for the bit sequence `B` of its source,
-    provided each intermediate step preserves (length, positions) — proven for plain and sparse intermediates
-    (`plain_sparse_plain_round_trip`), and for run-length intermediates at the level of maximal runs;
-  * every chain ENDING in a sparse vector of width `w` yields THE vector of `positions_into_sparse_closed_form`
-    (`sparse_plain_sparse_round_trip`);
-  * every chain ENDING in a run-length vector yields a vector with the right `len`, `count_ones` and runs
-    (partial: see §4).
-The remaining gap for the full 27-chain statement is exactly the two items listed under "Partial" in the header. -/
+Canonical representatives of a bit sequence `B`:  plain `RawVec.ofBits B`;  sparse of width `w`
+`Sparse.ofValues w |B| false (onesPos B)`;  run-length `rlOf m B`.
+  * (A) each of them lists `(onesPos B, |B|)` — `canonical_representatives_list_their_bits`;
+  * (B) each target fed `(onesPos B, |B|)` yields its canonical representative of `B` — `bits_into_plain` (§2),
+    `plain_into_sparse_preserves_bits` (§3: the builder call IS the definition of the representative),
+    `bits_into_rl_is_canonical` (§4);
+  * every value of a type is the canonical representative of its own bits — `plain_representation_is_canonical`,
+    `sparse_representation_is_canonical`, `rl_same_bits_same_value`.
+So a chain of conversions of any length starting from a structure with bits `B` passes only through canonical
+representatives of `B` and ends in the canonical representative of `B` in the last type, independent of the route.
+The theorems below spell this out for the round trips between every pair of types and for a chain of length 3. -/
+
+/-- (A) for the canonical representatives: all three list the set positions `onesPos B` (in order, ranked from
+0) and report the length `|B|` -/
+theorem canonical_representatives_list_their_bits (m : Mode) (w : Nat) (B : List Bool) (hw1 : 1 ≤ w)
+    (hw : w ≤ 63) (hB : B.length < 2 ^ 64) (hm : B.count true < 2 ^ 63) :
+    -- plain
+    ((RawVec.ofBits B).len = B.length ∧ ∀ calls : List ICall,
+      oneRun .ident m (BitVector.ofRaw (RawVec.ofBits B)) (OneIterSt.full .ident (BitVector.ofRaw (RawVec.ofBits B)))
+        calls = ok (dequeRunM (pairs (onesPos B)) calls)) ∧
+    -- sparse
+    (∃ s, Sparse.ofValues w B.length false (onesPos B) = ok s ∧ s.len = B.length ∧
+      drain m s ((onesPos B).length + 1) (SpOneIter.full s) = ok (itemsFrom (onesPos B) 0)) ∧
+    -- run-length
+    (∃ x, rlOf m B = ok x ∧ x.len = B.length ∧
+      ∃ st items, x.oneIter = ok st ∧ RLQ.drainOne m x (x.ones + 1) st = ok items ∧
+        items.map (·.2) = onesPos B ∧ items.map (·.1) = List.range (B.count true)) := by
+  have hB' : B.length < U64 := by rw [U64_eq]; exact hB
+  refine ⟨⟨(bits_into_plain B).2.2.2, fun calls => ?_⟩, ?_, ?_⟩
+  · have h := plain_one_iter_lists_set_positions (RawVec.ofBits B) (RawVec.ofBits_WF B)
+      (by rw [(bits_into_plain B).2.2.2]; exact hB) m calls
+    rw [RawVec.bits_ofBits] at h
+    exact h
+  · obtain ⟨s, hs, hl, _, _, hd⟩ := plain_into_sparse_preserves_bits w B hw1 hw hB hm
+    exact ⟨s, hs, hl, hd m⟩
+  · obtain ⟨hr, _⟩ := RL.bitCalls_spec B hB'
+    obtain ⟨b, hb, _, hd⟩ := rl_bit_at_a_time_describes_bits m B hB'
+    obtain ⟨b', x, hb', hx, hcan, hl, _, _⟩ := bits_into_rl_is_canonical m B hB'
+    rw [hb] at hb'; cases hb'
+    obtain ⟨_, st, items, h1, h2, h3, h4⟩ := rl_one_iter_lists_set_positions m _
+      (RL.callsOf_argsOk _ B.length 0 hr hB') b hb x hx
+    rw [hd] at h3 h4
+    exact ⟨x, hcan, hl, st, items, h1, h2, h3, h4⟩
 
 /-- plain → sparse → plain is the identity: list the positions of `v`, build the sparse vector (any width),
 list ITS positions (they are the same list), copy them into a plain vector: the very same value `v` -/
@@ -311,6 +429,128 @@ theorem plain_rl_round_trip_content (m : Mode) (v : RawVec) (hlen : v.len < U64)
   rw [hl] at h1 h3
   exact ⟨b, x, hb, hx, h1, h2, h3⟩
 
+/-- **plain → run-length → plain is the identity**: convert `v` bit by bit into a run-length vector `x`, list
+`x`'s positions with `one_iter()` (they are `onesPos v.bits`, and `x.len = v.len`), copy them into a plain
+vector: the very same value `v` -/
+theorem plain_rl_plain_round_trip (m : Mode) (v : RawVec) (hv : v.WF) (hlen : v.len < U64) :
+    ∃ b x, RL.runBCalls m (RL.callsOf ((onesPos v.bits).map fun i => (i, 1)) v.bits.length) {} = ok b ∧
+      RL.ofBuilder m b = ok x ∧ rlOf m v.bits = ok x ∧
+      ∃ st items, x.oneIter = ok st ∧ RLQ.drainOne m x (x.ones + 1) st = ok items ∧
+        (items.map (·.2)).foldl (fun u i => u.setBit i true) (RawVec.withLen x.len false) = v := by
+  have hl : v.bits.length = v.len := RawVec.bits_length v
+  have hB : v.bits.length < U64 := by rw [hl]; exact hlen
+  obtain ⟨hr, _⟩ := RL.bitCalls_spec v.bits hB
+  obtain ⟨b, hb, _, hd⟩ := rl_bit_at_a_time_describes_bits m v.bits hB
+  obtain ⟨b', x, hb', hx, hcan, hxl, _, _⟩ := bits_into_rl_is_canonical m v.bits hB
+  rw [hb] at hb'; cases hb'
+  obtain ⟨_, st, items, h1, h2, h3, _⟩ := rl_one_iter_lists_set_positions m _
+    (RL.callsOf_argsOk _ v.bits.length 0 hr hB) b hb x hx
+  rw [hd] at h3
+  refine ⟨b, x, hb, hx, hcan, st, items, h1, h2, ?_⟩
+  rw [h3, hxl, (bits_into_plain v.bits).1]
+  exact (RawVec.canonical hv (RawVec.ofBits_WF _) (RawVec.bits_ofBits _).symm).symm
+
+/-- **run-length → plain → run-length is the identity**: take the vector `x` of any accepted history describing
+`B`, copy the positions listed by its `one_iter()` into a plain vector (it is `RawVec.ofBits B`), convert that bit
+by bit into a run-length vector: the very same value `x` (and the same builder as the original history) -/
+theorem rl_plain_rl_round_trip (m : Mode) (calls : List RL.BCall) (hc : ∀ c ∈ calls, RL.callArgsOk c)
+    (B : List Bool) (hB : calls.foldl RL.specCall [] = B)
+    (b : RLBuilder) (hb : RL.runBCalls m calls {} = ok b) (x : RL) (hx : RL.ofBuilder m b = ok x) :
+    ∃ st items, x.oneIter = ok st ∧ RLQ.drainOne m x (x.ones + 1) st = ok items ∧
+      (items.map (·.2)).foldl (fun u i => u.setBit i true) (RawVec.withLen x.len false) = RawVec.ofBits B ∧
+      (RawVec.ofBits B).bits = B ∧
+      RL.runBCalls m (RL.callsOf ((onesPos B).map fun i => (i, 1)) B.length) {} = ok b ∧ rlOf m B = ok x := by
+  subst hB
+  obtain ⟨_, st, items, h1, h2, h3, _⟩ := rl_one_iter_lists_set_positions m calls hc b hb x hx
+  obtain ⟨hxl, _⟩ := rl_run_iter_lists_maximal_runs m calls hc b hb x hx
+  have hlt : (calls.foldl RL.specCall []).length < U64 := by
+    obtain ⟨F, k⟩ := RLCanon.history_canon m calls hc b hb
+    rw [k.len]; exact k.inv.len_lt
+  obtain ⟨b', x', hb', hx', hcan, _, _, _, hall⟩ := bits_into_rl_is_canonical m _ hlt
+  obtain ⟨e, hx''⟩ := hall calls hc rfl b hb
+  rw [hx] at hx''; cases hx''
+  refine ⟨st, items, h1, h2, ?_, RawVec.bits_ofBits _, e ▸ hb', hcan⟩
+  rw [h3, hxl, (bits_into_plain _).1]
+
+/-- **run-length → run-length through `run_iter()`** (the run-by-run copy): feeding the maximal runs listed by
+`x` (§1) and `x.len` to a fresh builder reproduces `x` -/
+theorem rl_rl_round_trip (m : Mode) (calls : List RL.BCall) (hc : ∀ c ∈ calls, RL.callArgsOk c)
+    (B : List Bool) (hB : calls.foldl RL.specCall [] = B)
+    (b : RLBuilder) (hb : RL.runBCalls m calls {} = ok b) (x : RL) (hx : RL.ofBuilder m b = ok x) :
+    x.len = B.length ∧ RL.runBCalls m (RL.callsOf (maximalRuns B) x.len) {} = ok b := by
+  subst hB
+  obtain ⟨hxl, _⟩ := rl_run_iter_lists_maximal_runs m calls hc b hb x hx
+  have hlt : (calls.foldl RL.specCall []).length < U64 := by
+    obtain ⟨F, k⟩ := RLCanon.history_canon m calls hc b hb
+    rw [k.len]; exact k.inv.len_lt
+  obtain ⟨b2, hb2, _, hd2⟩ := rl_run_at_a_time_describes_bits m _ hlt
+  have e := RLCanon.builder_canonical m _ calls
+    (RL.callsOf_argsOk _ _ 0 (RLCanon.runCalls_spec _ hlt).1 hlt) hc hd2 b2 b hb2 hb
+  exact ⟨hxl, by rw [hxl, ← e]; exact hb2⟩
+
+/-- **sparse → run-length → sparse is the identity**: the positions `P` (over `n`) listed by a sparse vector, fed
+bit by bit to the run-length builder, give `rlOf m (bitsOfSet P n)`; its `one_iter()` lists `P` again and its
+length is `n`, so the sparse builder is fed the very same `(n, P)` -/
+theorem sparse_rl_sparse_round_trip (m : Mode) (w n : Nat) (P : List Nat) (hn : n < U64)
+    (hsorted : sortedStrict P = true) (hbound : ∀ p ∈ P, p < n) :
+    ∃ b x, RL.runBCalls m (RL.callsOf (P.map fun i => (i, 1)) n) {} = ok b ∧ RL.ofBuilder m b = ok x ∧
+      rlOf m (bitsOfSet P n) = ok x ∧ x.len = n ∧ x.ones = P.length ∧
+      ∃ st items, x.oneIter = ok st ∧ RLQ.drainOne m x (x.ones + 1) st = ok items ∧ items.map (·.2) = P ∧
+        Sparse.ofValues w x.len false (items.map (·.2)) = Sparse.ofValues w n false P := by
+  have h2 : (bitsOfSet P n).length = n := by simp [bitsOfSet]
+  have h3 := onesPos_bitsOfSet P n (sortedStrict_pairwise P hsorted) hbound
+  have hB : (bitsOfSet P n).length < U64 := by rw [h2]; exact hn
+  obtain ⟨hr, _⟩ := RL.bitCalls_spec _ hB
+  obtain ⟨b, hb, _, hd⟩ := rl_bit_at_a_time_describes_bits m _ hB
+  obtain ⟨b', x, hb', hx, hcan, hxl, hxo, _⟩ := bits_into_rl_is_canonical m _ hB
+  rw [hb] at hb'; cases hb'
+  obtain ⟨_, st, items, i1, i2, i3, _⟩ := rl_one_iter_lists_set_positions m _
+    (RL.callsOf_argsOk _ _ 0 hr hB) b hb x hx
+  rw [hd, h3] at i3
+  rw [h2, h3] at hb
+  rw [h2] at hxl
+  rw [← length_onesPos, h3] at hxo
+  exact ⟨b, x, hb, hx, hcan, hxl, hxo, st, items, i1, i2, i3, by rw [i3, hxl]⟩
+
+/-- **run-length → sparse → run-length is the identity**: the positions listed by `x` (history describing `B`)
+build the sparse representative of `B` (any width), which lists `(onesPos B, |B|)` again; feeding that bit by bit
+to the run-length builder reproduces `x` -/
+theorem rl_sparse_rl_round_trip (m : Mode) (w : Nat) (hw1 : 1 ≤ w) (hw : w ≤ 63)
+    (calls : List RL.BCall) (hc : ∀ c ∈ calls, RL.callArgsOk c)
+    (B : List Bool) (hB : calls.foldl RL.specCall [] = B) (hm : B.count true < 2 ^ 63)
+    (b : RLBuilder) (hb : RL.runBCalls m calls {} = ok b) (x : RL) (hx : RL.ofBuilder m b = ok x) :
+    ∃ st items s, x.oneIter = ok st ∧ RLQ.drainOne m x (x.ones + 1) st = ok items ∧
+      Sparse.ofValues w x.len false (items.map (·.2)) = ok s ∧
+      Sparse.ofValues w B.length false (onesPos B) = ok s ∧ s.len = B.length ∧
+      drain m s ((onesPos B).length + 1) (SpOneIter.full s) = ok (itemsFrom (onesPos B) 0) ∧
+      RL.runBCalls m (RL.callsOf ((onesPos B).map fun i => (i, 1)) s.len) {} = ok b ∧ rlOf m B = ok x := by
+  obtain ⟨st, items, h1, h2, h3, _, h5, h6⟩ := rl_plain_rl_round_trip m calls hc B hB b hb x hx
+  subst hB
+  obtain ⟨hxl, _⟩ := rl_run_iter_lists_maximal_runs m calls hc b hb x hx
+  have hlt : (calls.foldl RL.specCall []).length < 2 ^ 64 := by
+    obtain ⟨F, k⟩ := RLCanon.history_canon m calls hc b hb
+    rw [k.len, ← U64_eq]; exact k.inv.len_lt
+  obtain ⟨s, hs, hl, _, _, hd⟩ := plain_into_sparse_preserves_bits w _ hw1 hw hlt hm
+  have i3' : items.map (·.2) = onesPos (calls.foldl RL.specCall []) := by
+    obtain ⟨_, st', items', j1, j2, j3, _⟩ := rl_one_iter_lists_set_positions m calls hc b hb x hx
+    rw [h1] at j1; cases j1
+    rw [h2] at j2; cases j2
+    exact j3
+  exact ⟨st, items, s, h1, h2, by rw [i3', hxl]; exact hs, hs, hl, hd m, by rw [hl]; exact h5, h6⟩
+
+/-- **a chain of length 3: plain → sparse → run-length = plain → run-length.**  The sparse vector built from the
+positions of `B` lists `(onesPos B, |B|)`, so the run-length builder receives the same calls as in the direct
+conversion and the result is `rlOf m B` — the value every accepted history describing `B` converts to -/
+theorem plain_sparse_rl_chain (m : Mode) (w : Nat) (B : List Bool) (hw1 : 1 ≤ w) (hw : w ≤ 63)
+    (hB : B.length < 2 ^ 64) (hm : B.count true < 2 ^ 63) :
+    ∃ s b x, Sparse.ofValues w B.length false (onesPos B) = ok s ∧
+      drain m s ((onesPos B).length + 1) (SpOneIter.full s) = ok (itemsFrom (onesPos B) 0) ∧
+      RL.runBCalls m (RL.callsOf ((onesPos B).map fun i => (i, 1)) s.len) {} = ok b ∧
+      RL.ofBuilder m b = ok x ∧ rlOf m B = ok x ∧ x.len = B.length ∧ x.ones = B.count true := by
+  obtain ⟨s, hs, hl, _, _, hd⟩ := plain_into_sparse_preserves_bits w B hw1 hw hB hm
+  obtain ⟨b, x, hb, hx, hcan, l, o, _⟩ := bits_into_rl_is_canonical m B (by rw [U64_eq]; exact hB)
+  exact ⟨s, b, x, hs, hd m, by rw [hl]; exact hb, hx, hcan, l, o⟩
+
 /-! ### non-vacuity -/
 
 example : onesPos [true, false, true, true] = [0, 2, 3] ∧
@@ -331,5 +571,10 @@ example : ∃ s, Sparse.ofValues 1 4 false [0, 2, 3] = ok s ∧ s.low.items = [0
 example : ([.bit 1, .bit 2, .bit 3, .setLen 6] : List RL.BCall).foldl RL.specCall [] =
     ([.set 1 3, .setLen 6] : List RL.BCall).foldl RL.specCall [] := by decide
 example : maximalRuns [false, true, true, true, false, false] = [(1, 3)] := by decide
+/-- … they reach the same builder and convert to the same vector, here computed -/
+example : RL.runBCalls .checked [.bit 1, .bit 2, .bit 3, .setLen 6] {} =
+    RL.runBCalls .checked [.set 1 3, .setLen 6] {} := by decide
+example : ((RL.runBCalls .checked [.bit 1, .bit 2, .bit 3, .setLen 6] {} >>= RL.ofBuilder .checked) >>=
+      fun v => ok (v.len, v.ones, v.data.items, v.samples.items)) = ok (6, 3, [1, 2], [0, 0]) := by decide
 
 end Sds.C11
